@@ -113,7 +113,9 @@ class SuciProc(Stream):
             mnclen = 2 + g % 2
             mcc, mnc = rng.digits(3), rng.digits(mnclen)
             msin = rng.digits(rng.choice([5, 6, 10 - (mnclen - 2) - 4])) + tail      # every group ends in the same four digits
-            for n in (0, 1, 10000, 2):
+            # ... and the UE indices at which the addition carries exactly out of the index's own digits (tail 0001: 9, 99, 999)
+            carries = [10 ** k - int(tail) % 10 ** k for k in (1, 2, 3)]
+            for n in [0, 1, 10000, 2] + [c for c in carries if c not in (0, 1, 2, 10, 100, 1000)][:(2 if tier == "quick" else 3)]:
                 if int(msin) + n < 10 ** len(msin):
                     add(mcc, mnc, msin, n)
         # the corners of the PLMN space (000/000 encodes as 00 00 00, 999/999 as 99 99 99): reserved-looking, legal
